@@ -10,7 +10,8 @@ RULE = ('tables (exhaustive): every key of the decoder table of a fresh TracesPa
         'tables is checked against an independent reader of the bundled trace.codes (name present, under an id with '
         'qualifier bits clear), the families are pairwise disjoint, every X_nocancel has its X. twins (generated): for '
         'every pair, in-domain START/END tuples (error zero / errno / unknown), 0..2 lookups: the two renderings '
-        'are identical after removing the single "_nocancel" that follows the call name. Non-trivial: twin case with '
+        'are identical after removing the single "_nocancel" that follows the call name (every third case after another '
+        'parser object, built on a table lacking both names, has seen the same ids and must decode nothing). Non-trivial: twin case with '
         'a non-zero error or >= 1 lookup; each table entry counts once; distinct by (pair, tuples).')
 ASSUMPTIONS = ['the bundled table is read by an independent reader (split on whitespace, int(x, 16))']
 
